@@ -166,7 +166,7 @@ fn o12_3_stale_time_sensitive_discarded() {
     std::mem::forget(s);
 }
 
-//@h props=C06,C05,C11 tier=quick timeout=600 role=sender-limits
+//@h props=C06,C05,C11 tier=quick timeout=600 role=sender-limits also_quick=C05
 //@fn PacketSender::{enqueue_packet, emit_packet, acknowledge}
 //@bound W=2, base 2^20-1; three 1-byte packets of any mode: the third is held back until the window reopens
 #[kani::proof]
@@ -343,4 +343,33 @@ fn o19_2_canary_forgotten_rc_is_reported_as_leak() {
     s.acknowledge(0);
     std::mem::forget(p0);      // the packet's allocation is never released
     drop(s);
+}
+
+//@h props=C02,C01,C05 tier=quick timeout=900 role=sender-parent-across-wrap args=--no-memory-safety-checks
+//@assume Kani pointer checks off in this functional obligation
+//@fn PacketSender::{enqueue_packet, emit_packet, acknowledge}
+//@bound W=4, base 2^20-2: two Unreliable packets (ids 2^20-2, 2^20-1), one Reliable packet (id 0, after the wrap), all on channel 3; the peer acknowledges up to 2^20-1 (the window base is still before the wrap, the Reliable packet unacknowledged); then one more packet on channel 3
+#[kani::proof]
+#[kani::unwind(6)]
+fn o2_5_unacknowledged_reliable_parent_survives_ack_across_the_wrap() {
+    let base = 0xFFFFE;
+    let mut s = small(4, base, 1448 * 8);
+    s.enqueue_packet(Box::new([1]), 3, SendMode::Unreliable, 0);
+    s.enqueue_packet(Box::new([2]), 3, SendMode::Unreliable, 0);
+    s.enqueue_packet(Box::new([3]), 3, SendMode::Reliable, 0);
+    let r0 = s.emit_packet(0);
+    let r1 = s.emit_packet(0);
+    let r2 = s.emit_packet(0);
+    assert!(r2.as_ref().unwrap().0.borrow().datagram(0).sequence_id == 0);
+    s.acknowledge(0xFFFFF);
+    assert!(s.base_id() == 0xFFFFF);
+    s.enqueue_packet(Box::new([kani::any()]), 3, any_mode(), 0);
+    let r3 = s.emit_packet(0).unwrap();
+    {
+        let p = r3.0.borrow();
+        let d = p.datagram(0);
+        assert!(d.sequence_id == 1);
+        assert!(d.window_parent_lead == 1 && d.channel_parent_lead == 1, "[C02] a packet sent while an earlier Reliable packet is unacknowledged names it as its parent - also when the parent's id lies after the 2^20 wrap and the acknowledged base before it");
+    }
+    std::mem::forget(r0); std::mem::forget(r1); std::mem::forget(r2); std::mem::forget(r3); std::mem::forget(s);
 }
